@@ -743,11 +743,11 @@ unsigned coefficient_root_lower_bound(const coefficient_t* C) {
     }
   }
 
-  // Return the bound:
-  // * max_log is upper bound approximation, that's good
-  // * log_c0 is upper bound approximation, so we add one
+  // Return the bound: nonzero roots satisfy |z| >= 1/(1 + max/|c0|)
+  // * max < 2^max_log and |c0| >= 2^(log_c0 - 1), so max/|c0| < 2^(max_log - log_c0 + 1)
+  // * 1 + max/|c0| < 2^(max_log - log_c0 + 1) + 1 <= 2^(max_log - log_c0 + 2)
   // * max_log >= log_c0, so we're safe
-  return max_log - log_c0 + 1;
+  return max_log - log_c0 + 2;
 }
 
 int coefficient_is_assigned(const lp_polynomial_context_t* ctx, const coefficient_t* C, const lp_assignment_t* m) {
